@@ -428,3 +428,41 @@ def stmt_of(mod: Module, node: ast.AST) -> ast.AST:
     if p is None:
         raise AnalysisError("expression without statement")
     return p
+
+
+def unconditionally_evaluated(root: ast.AST, target: ast.AST) -> bool:
+    """Is `target` evaluated whenever `root` (a statement or expression containing it) is evaluated?
+    False when it sits in a short-circuited operand (2nd+ operand of and/or), an IfExp branch, a lambda or a comprehension body/filter."""
+    def walk(node) -> Optional[bool]:
+        if node is target:
+            return True
+        if isinstance(node, ast.BoolOp):
+            for i, v in enumerate(node.values):
+                r = walk(v)
+                if r is not None:
+                    return r and i == 0
+            return None
+        if isinstance(node, ast.IfExp):
+            r = walk(node.test)
+            if r is not None:
+                return r
+            for b in (node.body, node.orelse):
+                if walk(b) is not None:
+                    return False
+            return None
+        if isinstance(node, ast.Lambda):
+            return False if walk(node.body) is not None else None
+        if isinstance(node, (ast.ListComp, ast.SetComp, ast.GeneratorExp, ast.DictComp)):
+            for ch in ast.iter_child_nodes(node):
+                if walk(ch) is not None:
+                    first_iter = node.generators[0].iter
+                    return any(x is target for x in ast.walk(first_iter))
+            return None
+        for ch in ast.iter_child_nodes(node):
+            r = walk(ch)
+            if r is not None:
+                return r
+        return None
+
+    r = walk(root)
+    return bool(r)
